@@ -460,3 +460,48 @@ func c14ObjectRestThroughArrayRest(p *Prog) *RuleResult {
 	r.Floor(2)
 	return r
 }
+
+// ---------------------------------------------------------------------------------------------
+// C17/R8 extension-validation-rejects-separators.
+//
+// An output extension is appended to the output's base name. If it may contain a path separator
+// (`.x/../../victim.js`) the output lands outside the output directory although no name template
+// contains a parent-directory segment. Rule: the predicate that validates extensions rejects both
+// `/` and `\`.
+func c17ExtensionNoSeparators(p *Prog) *RuleResult {
+	r := NewRule("C17/R8 extension-validation-rejects-separators", "isValidExtension rejects extensions that contain a path separator")
+	fn := p.FindFunc("pkg/api.isValidExtension")
+	if !r.Anchor("pkg/api.isValidExtension", fn != nil) {
+		return r
+	}
+	r.Instances++
+	key := "isValidExtension rejects `/` and `\\`"
+	seen := map[rune]bool{}
+	eachInstr(fn, func(b *ssa.BasicBlock, in ssa.Instruction) {
+		switch x := in.(type) {
+		case *ssa.Call:
+			if strings.HasPrefix(calleeFullName(x), "strings.") {
+				for _, a := range x.Call.Args[1:] {
+					if s, ok := constString(a); ok {
+						for _, ch := range s {
+							seen[ch] = true
+						}
+					} else if k, ok := constInt(a); ok {
+						seen[rune(k)] = true
+					}
+				}
+			}
+		case *ssa.BinOp:
+			if k, ok := constInt(x.Y); ok && (x.Op == token.EQL || x.Op == token.NEQ) {
+				seen[rune(k)] = true
+			}
+		}
+	})
+	if seen['/'] && seen['\\'] {
+		r.OK(key, true, "both separators are tested")
+	} else {
+		r.Fail(key, p.Pos(fn.Pos()), "an output extension may contain a path separator: `--out-extension:.js=.x/../../victim.js` writes the output outside the output directory (next to, or over, other files) without any parent-directory segment in a name template")
+	}
+	r.Floor(1)
+	return r
+}
